@@ -107,9 +107,9 @@ def check_dataset_pair(ctx, writer_q, reader_q, kind):
         def decide(t):
             if isinstance(t, ast.BoolOp):
                 return None
-            if nonempty_guard(t, "self", True):
+            if nonempty_guard(t, "self", True, exact=True):
                 return nonempty
-            if nonempty_guard(t, "self", False):
+            if nonempty_guard(t, "self", False, exact=True):
                 return not nonempty
             return None
         return decide
@@ -714,8 +714,12 @@ def check_track_one_layout(ctx, rule="IOAGREE"):
         if not over_all:
             continue
         where = (fi, r)
+        member = {n_.id for n_ in ast.walk(lpq[0].target) if isinstance(n_, ast.Name)} if lpq is not None else set()
         if "__class__" in txts or "type(" in txts:
-            ok_cls = True
+            # the class of *each member* (the loop variable) is compared, not that of one fixed droplet
+            cls_cmps = [c_ for t_, _p in si.effective_guards(r) for c_ in ast.walk(fv.expand(t_, t_))
+                        if isinstance(c_, ast.Compare) and len(c_.ops) == 1 and ("__class__" in U(c_) or "type(" in U(c_))]
+            ok_cls = not member or not cls_cmps or any(names_in(c_) & member for c_ in cls_cmps)
         # the complete dtype is compared (field names *and* shapes: a member with fewer modes has the same names)
         for t_, _p in si.effective_guards(r):
             for cmp_ in ast.walk(fv.expand(t_, t_)):
